@@ -21,10 +21,14 @@ EXTENDS Integers, Sequences, FiniteSets, TLC, Json
 CONSTANTS Formats,     \* formats of the base CIDs
           MaxFields, MaxChecks,
           FTags, CTags, \* catalogue entries that live in one cell of an F / C row
-          Decorations   \* set of subsets of {"comments", "blanks"} applied to every case
+          Decorations,  \* set of subsets of {"comments", "blanks"} applied to every case
+          ExamplesJudgedWhenComplete   \* TRUE (shipped): the examples are judged again when the CID is complete, under the data
+                                       \* format as it then is; FALSE: pinned code, only when the field is declared (D65)
 
 Row(k, tag, id, val) == [k |-> k, tag |-> tag, id |-> id, val |-> val]
-\* D rows: tag = "format" | "good" | "inapplicable" | "unknown" | "emptyname" | "badvalue" | "contra"; val = the format for "format"
+\* D rows: tag = "format" | "good" | "inapplicable" | "unknown" | "emptyname" | "badvalue" | "contra" | "narrow"; val = the format
+\* for "format". "good" and "narrow" set the same property (the allowed characters): under "good" every example of the base
+\* fields is a value of its field, under "narrow" none is; the later row counts.
 DFormat(f) == Row("D", "format", 0, f)
 DRow(tag) == Row("D", tag, 0, "")
 FRow(id, tag) == Row("F", tag, id, "")
@@ -55,6 +59,8 @@ Mutants(f, nf, nc) ==
         <<"fieldBeforeFormat", InsertAt(b, 1, FRow(9, "none"))>>,
         <<"noFields", SelectSeq(b, LAMBDA r : r.k # "F")>>}
   \cup (IF nc >= 1 THEN {<<"checkBeforeFields", InsertAt(b, 3, CRow(9, "none"))>>} ELSE {})
+  \* a property row in front of the fields, or behind everything, under which the examples are no values of their fields
+  \cup {<<"narrow", InsertAt(b, 3, DRow("narrow"))>>, <<"narrowLate", InsertAt(b, Len(b) + 1, DRow("narrow"))>>}
   \cup {<<"junk", InsertAt(b, p, Junk)>> : p \in 1..(Len(b) + 1)}
 \* meaning-preserving rewrites that exist as rows (marker case, surrounding blanks, trailing cells are the harness's)
 Decorate(rows, deco) ==
@@ -75,16 +81,19 @@ VARIABLES label, rows,       \* the case
           contra,            \* a setting that contradicts another one has been seen
           fields, checks,    \* ids in declaration order
           status,            \* "loading" | "accepted" | "rejected"
-          errRow             \* row of the rejection, 0 = reported after the last row
-vars == <<label, rows, pos, fmt, contra, fields, checks, status, errRow>>
+          errRow,            \* row of the rejection, 0 = reported after the last row
+          narrowNow,         \* the data format as it is now admits none of the examples
+          firstField         \* row of the first field declared, 0 = none yet
+vars == <<label, rows, pos, fmt, contra, fields, checks, status, errRow, narrowNow, firstField>>
 
 Cases == UNION {{<<m[1], Decorate(m[2], d)>> : m \in Mutants(f, nf, nc), d \in Decorations} :
                   f \in Formats, nf \in 1..MaxFields, nc \in 0..MaxChecks}
 Init == /\ \E c \in Cases : label = c[1] /\ rows = c[2]
         /\ pos = 0 /\ fmt = "" /\ contra = FALSE /\ fields = <<>> /\ checks = <<>> /\ status = "loading" /\ errRow = 0
+        /\ narrowNow = FALSE /\ firstField = 0
 
 Has(s, x) == \E i \in 1..Len(s) : s[i] = x
-RejectHere == status' = "rejected" /\ errRow' = pos + 1 /\ UNCHANGED <<fmt, contra, fields, checks>>
+RejectHere == status' = "rejected" /\ errRow' = pos + 1 /\ UNCHANGED <<fmt, contra, fields, checks, narrowNow, firstField>>
 \* interface.py:267-282
 ReadRow ==
   /\ status = "loading" /\ pos < Len(rows)
@@ -92,23 +101,31 @@ ReadRow ==
      CASE r.k = "D" ->
             IF r.tag = "format"
             THEN IF fmt # "" \/ r.val = "unknownfmt" THEN RejectHere
-                 ELSE fmt' = r.val /\ UNCHANGED <<contra, fields, checks, status, errRow>>
+                 ELSE fmt' = r.val /\ UNCHANGED <<contra, fields, checks, status, errRow, narrowNow, firstField>>
             ELSE IF fmt = "" \/ r.tag \in {"inapplicable", "unknown", "emptyname", "badvalue"} THEN RejectHere
-                 ELSE contra' = (contra \/ r.tag = "contra") /\ UNCHANGED <<fmt, fields, checks, status, errRow>>
+                 ELSE /\ contra' = (contra \/ r.tag = "contra")
+                      /\ narrowNow' = (IF r.tag = "narrow" THEN TRUE ELSE IF r.tag = "good" THEN FALSE ELSE narrowNow)
+                      /\ UNCHANGED <<fmt, fields, checks, status, errRow, firstField>>
        [] r.k = "F" ->
-            IF fmt = "" \/ r.tag # "none" \/ Has(fields, r.id) THEN RejectHere
-            ELSE fields' = Append(fields, r.id) /\ UNCHANGED <<fmt, contra, checks, status, errRow>>
+            \* (interface.py, add_field_format_row: the example is a value of the field as it is declared)
+            IF fmt = "" \/ r.tag # "none" \/ Has(fields, r.id) \/ narrowNow THEN RejectHere
+            ELSE /\ fields' = Append(fields, r.id) /\ firstField' = (IF firstField = 0 THEN pos + 1 ELSE firstField)
+                 /\ UNCHANGED <<fmt, contra, checks, status, errRow, narrowNow>>
        [] r.k = "C" ->
             IF fields = <<>> \/ r.tag # "none" \/ Has(checks, r.id) THEN RejectHere
-            ELSE checks' = Append(checks, r.id) /\ UNCHANGED <<fmt, contra, fields, status, errRow>>
-       [] r.k \in {"comment", "blank"} -> UNCHANGED <<fmt, contra, fields, checks, status, errRow>>
+            ELSE checks' = Append(checks, r.id) /\ UNCHANGED <<fmt, contra, fields, status, errRow, narrowNow, firstField>>
+       [] r.k \in {"comment", "blank"} -> UNCHANGED <<fmt, contra, fields, checks, status, errRow, narrowNow, firstField>>
        [] r.k = "junk" -> RejectHere
   /\ pos' = pos + 1 /\ UNCHANGED <<label, rows>>
 \* interface.py:283-287
 Finish ==
   /\ status = "loading" /\ pos = Len(rows)
-  /\ status' = IF fmt = "" \/ contra \/ fields = <<>> THEN "rejected" ELSE "accepted"
-  /\ UNCHANGED <<label, rows, pos, fmt, contra, fields, checks, errRow>>
+  /\ LET incomplete == fmt = "" \/ contra \/ fields = <<>>
+         \* the completed fields are asked for their examples once more, in declaration order: the first one is named
+         staleExample == ExamplesJudgedWhenComplete /\ ~incomplete /\ narrowNow
+     IN /\ status' = IF incomplete \/ staleExample THEN "rejected" ELSE "accepted"
+        /\ errRow' = IF staleExample THEN firstField ELSE errRow
+  /\ UNCHANGED <<label, rows, pos, fmt, contra, fields, checks, narrowNow, firstField>>
 Next == ReadRow \/ Finish
 Spec == Init /\ [][Next]_vars
 
@@ -116,10 +133,15 @@ Spec == Init /\ [][Next]_vars
 Ds(rs) == Idx(rs, "D")
 Fs(rs) == Idx(rs, "F")
 Cs(rs) == Idx(rs, "C")
+Max(S) == CHOOSE m \in S : \A o \in S : m >= o
+\* is the data format, after the rows in front of row n, one under which the examples are no values?
+NarrowBefore(rs, n) == LET s == {i \in Ds(rs) : i < n /\ rs[i].tag \in {"good", "narrow"}} IN s # {} /\ rs[Max(s)].tag = "narrow"
 Sound(rs) ==
   /\ Ds(rs) # {} /\ rs[Min(Ds(rs))].tag = "format" /\ rs[Min(Ds(rs))].val # "unknownfmt"     \* first data-format row sets a known format
   /\ Cardinality({i \in Ds(rs) : rs[i].tag = "format"}) = 1                                  \* exactly once
-  /\ \A i \in Ds(rs) : rs[i].tag \in {"format", "good"}                                       \* applicable, well-formed, not contradictory
+  /\ \A i \in Ds(rs) : rs[i].tag \in {"format", "good", "narrow"}                             \* applicable, well-formed, not contradictory
+  /\ \A i \in Fs(rs) : ~NarrowBefore(rs, i)                      \* "an example its own field accepts": as the field is declared ...
+  /\ ~NarrowBefore(rs, Len(rs) + 1)                              \* ... and as the completed CID has it
   /\ Fs(rs) # {} /\ \A i \in Fs(rs) : i > Min(Ds(rs)) /\ rs[i].tag = "none"                   \* fields after it, each well-formed
   /\ \A i, j \in Fs(rs) : i # j => rs[i].id # rs[j].id                                        \* unique names
   /\ \A i \in Cs(rs) : rs[i].tag = "none" /\ \E j \in Fs(rs) : j < i                          \* checks follow the fields
@@ -133,6 +155,7 @@ FirstOffending(rs) ==
                                                          THEN (\E i \in 1..(n - 1) : rs[i].k = "D") \/ rs[n].val = "unknownfmt"
                                                          ELSE rs[n].tag \in {"inapplicable", "unknown", "emptyname", "badvalue"}
                                                               \/ ~\E i \in 1..(n - 1) : rs[i].k = "D" /\ rs[i].tag = "format")
+                                    \/ rs[n].k = "F" /\ (NarrowBefore(rs, n) \/ (n = Min(Fs(rs)) /\ NarrowBefore(rs, Len(rs) + 1)))
                                     \/ rs[n].k = "F" /\ (rs[n].tag # "none" \/ Ds(p) = {} \/ \E i \in 1..(n - 1) : rs[i].k = "F" /\ rs[i].id = rs[n].id)
                                     \/ rs[n].k = "C" /\ (rs[n].tag # "none" \/ Fs(p) = {} \/ \E i \in 1..(n - 1) : rs[i].k = "C" /\ rs[i].id = rs[n].id)}
   IN IF bad = {} THEN 0 ELSE Min(bad)
